@@ -29,6 +29,34 @@ def _django():
         pass
 
 
+def real(v, sm):
+    """a `StateObj` placeholder -> the State object of the machine's class"""
+    from store_gen import StateObj
+    if isinstance(v, StateObj):
+        return getattr(type(sm), f"s{v.idx if v.idx < len(type(sm).states) else 0}")
+    return v
+
+
+def later_subclasses(cls, s: SScn):
+    """After the class exists, somebody writes subclasses of it that declare one more state each — with the values
+    this history will try to write although the machine does not map them. (The class statements fail: the new
+    state is unreachable. Failed or not, they are no business of `cls`: its instances must go on rejecting those
+    values.)"""
+    from statemachine import State
+    from store_gen import StateObj
+    keys = []
+    for k in [s.start] + [op[1] for op in s.ops if op[0] in ("wv", "raw")]:
+        if k is not None and k not in s.values and k not in keys and not isinstance(VALS[k], StateObj):
+            keys.append(k)
+    for j, k in enumerate(keys[:3]):
+        try:
+            with warnings.catch_warnings():
+                warnings.simplefilter("ignore")
+                type(cls)(f"Later{j}", (cls,), {"__module__": MODULE, f"extra{j}": State(value=VALS[k])})
+        except Exception:  # noqa: BLE001
+            pass
+
+
 def build_class(s: SScn):
     from statemachine import State, StateMachine
     states = []
@@ -179,6 +207,8 @@ def observe(sm, user, s: SScn, supplied: bool):
 def run_impl(s: SScn):
     """-> list of observation dicts: [{'op': 'C', 'res': …, f, v, s, sv, a, id}, {'op': i, …} …]"""
     cls = build_class(s)
+    if sum(map(ord, s.name)) % 2:
+        later_subclasses(cls, s)
     user, keep = make_model(s)
     out = []
     kw = {}
@@ -213,7 +243,7 @@ def run_impl(s: SScn):
             if op[0] == "send":
                 sm.send(EVENTS[op[1]])
             elif op[0] == "wv":
-                v = None if op[1] is None else VALS[op[1]]
+                v = None if op[1] is None else real(VALS[op[1]], sm)
                 unmapped = v is not None and not any(type(x) is type(v) and x == v for x in type(sm).states_map)
                 if unmapped and i % 2 == 0:
                     from statemachine import State
@@ -223,7 +253,7 @@ def run_impl(s: SScn):
             elif op[0] == "ws":
                 sm.current_state = getattr(sm, f"s{op[1]}")
             elif op[0] == "raw":
-                setattr(user, s.field_name, None if op[1] is None else VALS[op[1]])
+                setattr(user, s.field_name, None if op[1] is None else real(VALS[op[1]], sm))
             elif op[0] == "del":
                 try:
                     delattr(user, s.field_name)
@@ -296,7 +326,7 @@ def run_impl(s: SScn):
                 if op[0] == "send":
                     sm.send(EVENTS[op[1]])
                 elif op[0] == "wv":
-                    v = None if op[1] is None else VALS[op[1]]
+                    v = None if op[1] is None else real(VALS[op[1]], sm)
                     unmapped = v is not None and not any(type(x) is type(v) and x == v for x in type(sm).states_map)
                     if unmapped and i % 2 == 0:
                         # the same checked write through the other setter: a State object of *another* machine
@@ -307,7 +337,7 @@ def run_impl(s: SScn):
                 elif op[0] == "ws":
                     sm.current_state = getattr(sm, f"s{op[1]}")
                 elif op[0] == "raw":
-                    setattr(user, s.field_name, None if op[1] is None else VALS[op[1]])
+                    setattr(user, s.field_name, None if op[1] is None else real(VALS[op[1]], sm))
                 elif op[0] == "del":
                     try:
                         delattr(user, s.field_name)
